@@ -48,6 +48,9 @@ func NewChunkReader(r *bgzf.Reader, chunks []bgzf.Chunk) (*ChunkReader, error) {
 	if len(chunks) != 0 {
 		err := r.Seek(chunks[0].Begin)
 		if err != nil {
+			// No ChunkReader is returned whose Close
+			// would restore the mode of r.
+			r.Blocked = b
 			return nil, err
 		}
 	}
